@@ -12,6 +12,7 @@ import (
 	"testing"
 	"time"
 
+	"github.com/postalsys/muti-metroo/internal/config"
 	"github.com/postalsys/muti-metroo/internal/protocol"
 	vp "github.com/postalsys/muti-metroo/internal/zzvp"
 	"pgregory.net/rapid"
@@ -158,14 +159,29 @@ func TestVP_C04_Ciphertext(t *testing.T) {
 	serial := 0
 	rapid.Check(t, func(rt *rapid.T) {
 		serial++
-		kind := rapid.SampledFrom([]string{"tcp", "tcp", "forward", "udp", "udp-retry-after-open-timeout"}).Draw(rt, "kind")
+		kind := rapid.SampledFrom([]string{"tcp", "tcp", "forward", "udp", "udp-retry-after-open-timeout", "udp-open-rejected"}).Draw(rt, "kind")
 		shape := rapid.SampledFrom([]string{"chain1", "chain2", "chain3", "diamond"}).Draw(rt, "shape")
 		m := vpNewMesh(fmt.Sprintf("%s/m%d", base, serial))
 		defer m.stop()
 		log := &vpTapLog{keep: func(s vpSeen) bool { return true }}
 		m.setTap(log.tap)
 		a := m.add(rt, "A", vpIngressSocks)
-		x := m.add(rt, "X", vpExitFull(map[string]string{"rec": fmt.Sprintf("127.0.0.1:%d", rec.Port)}, ""))
+		xcfg := vpExitFull(map[string]string{"rec": fmt.Sprintf("127.0.0.1:%d", rec.Port)}, "")
+		if kind == "udp-open-rejected" {
+			// the exit refuses the association (relay disabled, or its association limit is
+			// zero-sized after the first one): UDP_OPEN is answered with UDP_OPEN_ERR
+			full := xcfg
+			rejectHow := rapid.SampledFrom([]string{"disabled", "limit"}).Draw(rt, "rejectHow")
+			xcfg = func(c *config.Config) {
+				full(c)
+				if rejectHow == "disabled" {
+					c.UDP.Enabled = false
+				} else {
+					c.UDP.MaxAssociations = 1
+				}
+			}
+		}
+		x := m.add(rt, "X", xcfg)
 		switch shape {
 		case "diamond":
 			m.add(rt, "T1", nil)
@@ -286,6 +302,28 @@ func TestVP_C04_Ciphertext(t *testing.T) {
 			}
 			time.Sleep(3 * time.Millisecond)
 			a.CloseUDPAssociation(base)
+		case "udp-open-rejected":
+			// with the limit variant a first association occupies the only slot
+			var first uint64
+			if x.udpHandler != nil {
+				first, _ = a.CreateUDPAssociation(context.Background(), &net.UDPAddr{IP: net.IPv4(127, 0, 0, 1), Port: 40001})
+				a.RelayUDPDatagram(first, &net.UDPAddr{IP: net.IPv4(127, 0, 0, 1), Port: uecho.Port}, uint16(uecho.Port), protocol.AddrTypeIPv4, net.IPv4(127, 0, 0, 1).To4(), []byte("occupy"))
+			}
+			base, err := a.CreateUDPAssociation(context.Background(), &net.UDPAddr{IP: net.IPv4(127, 0, 0, 1), Port: 40000})
+			if err != nil {
+				rt.Fatalf("harness: CreateUDPAssociation: %v", err)
+			}
+			var errs []string
+			for _, p := range [][]byte{up, down, up} {
+				e := a.RelayUDPDatagram(base, &net.UDPAddr{IP: net.IPv4(127, 0, 0, 1), Port: uecho.Port}, uint16(uecho.Port), protocol.AddrTypeIPv4, net.IPv4(127, 0, 0, 1).To4(), p)
+				errs = append(errs, fmt.Sprint(e))
+			}
+			canon += fmt.Sprintf(" (sends after rejection: %v)", errs)
+			time.Sleep(3 * time.Millisecond)
+			a.CloseUDPAssociation(base)
+			if first != 0 {
+				a.CloseUDPAssociation(first)
+			}
 		case "udp":
 			cl, err := vpSocksUDPAssociate(a.SOCKS5Address().String())
 			if err != nil {
@@ -332,6 +370,14 @@ func TestVP_C04_Ciphertext(t *testing.T) {
 			}
 		}
 		_ = x
-		st.Case(canon, dataUp > 0 && dataDown > 0, kind, shape, "up-"+upKind, "down-"+downKind)
+		rejected := 0
+		if kind == "udp-open-rejected" {
+			for _, s := range frames {
+				if s.F.Type == protocol.FrameUDPOpenErr {
+					rejected++
+				}
+			}
+		}
+		st.Case(canon, (dataUp > 0 && dataDown > 0) || rejected > 0, kind, shape, "up-"+upKind, "down-"+downKind)
 	})
 }
